@@ -616,7 +616,7 @@ func (em *emitter) prepareFunctionBodyParameters(fn *ast.Func) {
 	}
 
 	// Rebind input parameters that should be declared as indirect.
-	for _, param := range fn.Type.Parameters {
+	for i, param := range fn.Type.Parameters {
 		if em.varStore.mustBeDeclaredAsIndirect(param.Ident) {
 			// reg is used only to read input parameters; after copying values
 			// into the indirect register it is not used anymore.
@@ -625,6 +625,10 @@ func (em *emitter) prepareFunctionBodyParameters(fn *ast.Func) {
 			reg := em.fb.scopeLookup(param.Ident.Name)
 			indirect := em.fb.newIndirectRegister()
 			typ := em.typ(param.Type)
+			if fn.Type.IsVariadic && i == len(fn.Type.Parameters)-1 {
+				// The variadic parameter is a slice of its declared type.
+				typ = em.types.SliceOf(typ)
+			}
 			em.fb.emitNew(typ, -indirect)
 			em.changeRegister(false, reg, indirect, typ, typ)
 			em.fb.bindVarReg(param.Ident.Name, indirect)
